@@ -9,6 +9,7 @@ import KB.Driver.Sched
 import KB.Driver.Election
 import KB.Driver.Roles
 import KB.Driver.Etcd
+import KB.Driver.Watch
 open KB KB.Driver
 
 partial def loop {σ : Type} (h : IO.FS.Stream) (step : σ → List String → σ × String) (st : σ) : IO Unit := do
@@ -35,4 +36,5 @@ def main (args : List String) : IO Unit := do
   | "election" => loop stdin Election.step Election.init
   | "roles" => loop stdin Roles.step Roles.init
   | "etcd" => loop stdin Etcd.step Etcd.init
+  | "watch" => loop stdin Watch.step Watch.init
   | _ => loop stdin (stepSuite suiteName) (initSuite suiteName [])
